@@ -237,6 +237,14 @@ func tryReplay(v *Verifier, res *FuncResult, o *Obligation, dir string) string {
 	}
 	sb.WriteString("}\n")
 	pkgDir := filepath.Dir(v.fset.Position(fn.Pos()).Filename)
+	// a self-contained variant (no generated clause functions) is kept in the replay file for ./check --replay
+	var plain []string
+	for _, l := range strings.Split(sb.String(), "\n") {
+		if !strings.Contains(l, "REPLAY-CLAUSE") {
+			plain = append(plain, l)
+		}
+	}
+	o.ReplaySrc, o.ReplayDir = strings.Join(plain, "\n"), pkgDir
 	testPath := filepath.Join(dir, "replay_test.go")
 	os.WriteFile(testPath, []byte(sb.String()), 0o644)
 	ov := map[string]map[string]string{"Replace": {filepath.Join(pkgDir, "zz_verif_replay_test.go"): testPath}}
@@ -305,3 +313,48 @@ func clauseExecutable(cl *Clause) bool {
 }
 
 var _ = ssa.NaiveForm
+
+// cmdReplay: ./check --replay <file> - shows the recorded violation and, when the replay file holds a
+// generated test, runs it again on the current tree (go test -overlay, nothing is written to the repository).
+func cmdReplay(path string) {
+	data, err := os.ReadFile(path)
+	if err != nil {
+		fmt.Println("cannot read", path, err)
+		os.Exit(2)
+	}
+	var m map[string]interface{}
+	if err := json.Unmarshal(data, &m); err != nil {
+		fmt.Println(string(data))
+		return
+	}
+	for _, k := range []string{"property", "obligation", "kind", "function", "position", "status", "solver", "outcome", "note"} {
+		if v, ok := m[k]; ok && v != nil && v != "" {
+			fmt.Printf("%-10s %v\n", k+":", v)
+		}
+	}
+	src, _ := m["replay_test_go"].(string)
+	dir, _ := m["replay_pkg_dir"].(string)
+	if src == "" || dir == "" {
+		fmt.Println("replay:    no executable replay recorded (the solver gave no model, or no concrete input could be built from it)")
+		return
+	}
+	tmp, _ := os.MkdirTemp("/var/tmp", "govcreplay")
+	defer os.RemoveAll(tmp)
+	testPath := filepath.Join(tmp, "replay_test.go")
+	os.WriteFile(testPath, []byte(src), 0o644)
+	ov, _ := json.Marshal(map[string]map[string]string{"Replace": {filepath.Join(dir, "zz_verif_replay_test.go"): testPath}})
+	ovPath := filepath.Join(tmp, "overlay.json")
+	os.WriteFile(ovPath, ov, 0o644)
+	ctx, cancel := context.WithTimeout(context.Background(), 120*time.Second)
+	defer cancel()
+	cmd := exec.CommandContext(ctx, "go", "test", "-tags", "verif", "-overlay", ovPath, "-vet=off", "-count=1", "-timeout", "60s", "-run", "^TestVerifReplay$", "-v", ".")
+	cmd.Dir = dir
+	cmd.Env = goEnv()
+	out, _ := cmd.CombinedOutput()
+	fmt.Println("replay on the current tree (" + dir + "):")
+	for _, l := range strings.Split(string(out), "\n") {
+		if strings.HasPrefix(l, "REPLAY-") || strings.HasPrefix(l, "--- ") || strings.HasPrefix(l, "ok") || strings.HasPrefix(l, "FAIL") {
+			fmt.Println("   " + l)
+		}
+	}
+}
